@@ -8,7 +8,7 @@ ID = "C11"
 LEVEL = "exploration"
 BUILDS = {"quick": ["rel"], "thorough": ["rel", "tsan"]}
 OPTIONAL_BUILDS = ["tsan"]
-BUDGET_S = {"quick": 120, "thorough": 1800}
+BUDGET_S = {"quick": 600, "thorough": 1800}
 RULE = ("Random repositories of 1-6 files (8 host languages, sub-directories) x 1-8 uniquely named blocks, each with 0-4 rules "
         "drawn from keep-sorted / keep-unique / line-pattern / line-count / check-lua / check-ai and a severity in "
         "{absent, error, warning, info, hint} in mixed case; the expected multiset of (file, block, code, severity) comes "
